@@ -29,10 +29,11 @@ pub fn pair_scn(tier: &str, stable: Option<u64>) -> PairScn {
 
 pub fn trio_scn(tier: &str) -> TrioScn {
     let e9 = 10u128.pow(9);
-    let mut roots = vec![TrioRoot { label: "native/amp100/typical".into(), with_cw20: false, amp: 100, fees: TYPICAL, first: [e9, e9, e9], pre_swaps: true }];
-    roots.push(TrioRoot { label: "cw20/amp10/heavy".into(), with_cw20: true, amp: 10, fees: HEAVY, first: [e9, 2 * e9, e9 / 2], pre_swaps: false });
+    let mut roots = vec![TrioRoot { label: "native/amp100/typical".into(), with_cw20: false, amp: 100, fees: TYPICAL, first: [e9, e9, e9], pre_swaps: true, mid_ramp_to: None }];
+    roots.push(TrioRoot { label: "cw20/amp10/heavy".into(), with_cw20: true, amp: 10, fees: HEAVY, first: [e9, 2 * e9, e9 / 2], pre_swaps: false, mid_ramp_to: None });
+    roots.push(TrioRoot { label: "native/amp100->1000 mid-ramp/typical".into(), with_cw20: false, amp: 100, fees: TYPICAL, first: [e9, 3 * e9, e9 / 2], pre_swaps: false, mid_ramp_to: Some(1000) });
     if tier != "quick" {
-        roots.push(TrioRoot { label: "native/amp1e6/zero".into(), with_cw20: false, amp: 1_000_000, fees: Fee3::new(0, 0, 0), first: [e9, e9, e9], pre_swaps: true });
+        roots.push(TrioRoot { label: "native/amp1e6/zero".into(), with_cw20: false, amp: 1_000_000, fees: Fee3::new(0, 0, 0), first: [e9, e9, e9], pre_swaps: true, mid_ramp_to: None });
     }
     TrioScn { property: "C14".into(), roots, fee_alphabet: vec![HEAVY], probe: Probe::SimEqExec, with_ramps: false }
 }
